@@ -118,14 +118,19 @@ class Gen:
         self.stats[kw] = self.stats.get(kw, 0) + 1
         if o and o[0].startswith('err'):
             self.stats['rejected'] = self.stats.get('rejected', 0) + 1
+        hooks_first = main and self.after and self.rnd.random() < 0.4       # sometimes the oracle looks before the snapshot does
+        def hooks():
+            for x in self.after:
+                x = x.replace('{seed}', str(self.rnd.randrange(10 ** 6)))
+                self.lines.append(x); self.w.exec(x)
+        if hooks_first:
+            hooks()
         if snap if snap is not None else self.snap:
             v = line.split()[1] if len(line.split()) > 1 else self.var
             if v in self.w.vars and isinstance(self.w.vars[v], impl.SimplicialComplex):
                 self.lines.append('snap ' + v)
-        if main:
-            for x in self.after:
-                x = x.replace('{seed}', str(self.rnd.randrange(10 ** 6)))
-                self.lines.append(x); self.w.exec(x)
+        if main and not hooks_first:
+            hooks()
         return o
 
     def c(self):
@@ -258,7 +263,8 @@ class Gen:
             if not hi:
                 return None
             low = [x for x in hi if c.orderOf(x) < c.maxOrder()]       # below the top order: the matrices above are at stake
-            s = rnd.choice(low if low and rnd.random() < 0.7 else hi); fs = list(c.faces(s)); rnd.shuffle(fs)
+            falsy = [x for x in hi if not x]                           # a simplex whose name is 0, '' or ()
+            s = rnd.choice(falsy if falsy and rnd.random() < 0.5 else (low if low and rnd.random() < 0.7 else hi)); fs = list(c.faces(s)); rnd.shuffle(fs)
             n = rnd.choice([None] + [x for x in self.pool if x not in c][:4])
             return 'add %s %s %s %s' % (v, list_s(fs), optname_tok(n), attr_tok(rnd, self.w))
         if op == 'dupbasis':
@@ -267,7 +273,8 @@ class Gen:
                 hi = [s for s in hi if not any(_is_auto(f) for f in c.basisOf(s))]
             if not hi:
                 return None
-            s = rnd.choice(hi); bs = list(c.basisOf(s)); rnd.shuffle(bs)
+            falsy = [x for x in hi if not x]
+            s = rnd.choice(falsy if falsy and rnd.random() < 0.5 else hi); bs = list(c.basisOf(s)); rnd.shuffle(bs)
             n = rnd.choice([None] + [x for x in self.pool if x not in c][:4])
             return 'addb %s %s %s %s' % (v, list_s(bs), optname_tok(n), attr_tok(rnd, self.w))
         if op == 'copyinto':
